@@ -40,9 +40,10 @@ EXP_RANGE = (-2, 4)
 FACT_RANGE = (0, 5)
 GRID_FULL = (
     [Fraction(k) for k in range(-6, 13)]
-    + [Fraction(1, 2), Fraction(-1, 2), Fraction(3, 2), Fraction(5, 2), Fraction(1, 4), Fraction(-3, 2)]
+    + [Fraction(1, 2), Fraction(-1, 2), Fraction(3, 2), Fraction(5, 2), Fraction(1, 4), Fraction(-3, 2), Fraction(3, 100000),
+       Fraction(40000)]
 )
-GRID_QUICK = [Fraction(k) for k in (-2, -1, 0, 1, 2, 3, 4, 6, 12)] + [Fraction(1, 2), Fraction(3, 2)]
+GRID_QUICK = [Fraction(k) for k in (-2, -1, 0, 1, 2, 3, 4, 6, 12)] + [Fraction(1, 2), Fraction(3, 2), Fraction(3, 100000)]
 GRID_TINY = [Fraction(k) for k in (-2, 0, 1, 3, 6)] + [Fraction(1, 2)]
 ACTIVE = {"grid": GRID_QUICK, "name": "quick"}
 
